@@ -10,6 +10,7 @@ import (
 	"fmt"
 	"io"
 	"testing"
+	"time"
 
 	qnet "github.com/lugu/qiloop/bus/net"
 	"pgregory.net/rapid"
@@ -20,7 +21,10 @@ import (
 
 const prop = "C01"
 
-func TestMain(m *testing.M) { vt.Main(m) }
+func TestMain(m *testing.M) {
+	vt.Watchdog = 30 * time.Second
+	vt.Main(m)
+}
 
 // Msg describes one message; the payload is either given literally (hex) or is
 // PRF(seed) of the given length, so that replay files stay small.
